@@ -691,3 +691,336 @@ func removersRound(rep *vh.Report, c ctor) bool {
 	}
 	return true
 }
+
+// ---------------------------------------------------------------- fewer puts than waiters
+
+// partialWakeups: k consumers blocked in Get(), j < k puts: exactly j consumers return, each with a
+// distinct element that was put (never nil: a blocking Get promises an element), the others are
+// still blocked; the remaining k-j puts then release them.
+func partialWakeups(env *vh.Env, rep *vh.Report) {
+	reps := 2
+	if env.Thorough {
+		reps = 15
+	}
+	for _, dbl := range []bool{false, true} {
+		name := "RequestQueue"
+		if dbl {
+			name = "RequestDoubleQueue"
+		}
+		if isDead(name) {
+			continue
+		}
+		for _, kj := range [][2]int{{2, 1}, {3, 1}, {3, 2}, {5, 2}} {
+			for r := 0; r < reps*2; r++ {
+				k, j := kj[0], kj[1]
+				var get func() interface{}
+				var put func(i int) bool
+				if dbl {
+					d := queue.NewRequestDoubleQueue(8, 8)
+					get = d.Get
+					put = func(i int) bool {
+						if r%2 == 0 {
+							return d.Put1(i)
+						}
+						return d.Put2(i)
+					}
+				} else {
+					q := queue.NewRequestQueue(8)
+					get = q.Get
+					put = func(i int) bool {
+						if r%2 == 0 {
+							return q.Put(i)
+						}
+						return q.PutForce(i)
+					}
+				}
+				results := make(chan interface{}, k)
+				for c := 0; c < k; c++ {
+					go func() { results <- get() }()
+				}
+				time.Sleep(10 * time.Millisecond) // all k consumers are in Wait()
+				for i := 1; i <= j; i++ {
+					put(100 + i)
+				}
+				var got []string
+				bad := ""
+				seen := map[int]bool{}
+				deadline := time.After(1500 * time.Millisecond)
+			collect:
+				for len(got) < k {
+					select {
+					case v := <-results:
+						got = append(got, elemStr(v))
+						x, ok := v.(int)
+						switch {
+						case v == nil:
+							bad = "a blocking Get() returned nil"
+						case !ok || x < 101 || x > 100+j:
+							bad = fmt.Sprintf("Get() returned %v, which was never put", v)
+						case seen[x]:
+							bad = fmt.Sprintf("element %d was delivered twice", x)
+						}
+						seen[x] = true
+					case <-deadline:
+						break collect
+					}
+					if len(got) == j && bad == "" {
+						// give a wrongly woken consumer a moment to come back empty-handed
+						select {
+						case v := <-results:
+							got = append(got, elemStr(v))
+							if v == nil {
+								bad = "a blocking Get() returned nil"
+							} else {
+								bad = fmt.Sprintf("more consumers returned than elements were put (%v)", v)
+							}
+						case <-time.After(150 * time.Millisecond):
+						}
+						break collect
+					}
+				}
+				if bad == "" && len(got) != j {
+					bad = fmt.Sprintf("%d consumers returned for %d puts", len(got), j)
+				}
+				// release whoever is still blocked
+				for i := j + 1; i <= k+1; i++ {
+					put(100 + i)
+				}
+				rep.Case(fmt.Sprintf("partial-wakeup %s k=%d j=%d mode=%d", name, k, j, r%2), true)
+				rep.Count("blocked-consumers:fewer-puts-than-waiters")
+				if bad != "" {
+					key := name + ".Get:returned-nothing"
+					if !strings.Contains(bad, "nil") {
+						key = name + ".Get:not-linearizable"
+					}
+					rep.Fail("property", key,
+						fmt.Sprintf("%d consumers blocked in %s.Get(), %d puts: %s (returns so far: %v)", k, name, j, bad, got),
+						map[string]interface{}{"type": name, "consumers": k, "puts": j, "returned": got,
+							"how": "start k goroutines calling Get() on an empty queue, wait 10 ms, put j < k elements, collect what the consumers return"})
+					return
+				}
+			}
+		}
+	}
+}
+
+// ---------------------------------------------------------------- container-taking methods
+
+// containerArgProbes: every exported method that takes another instance of its own type
+// (PutAll(other) …) is called (1) with the receiver itself as the argument and (2) on two instances in
+// opposite directions, both parked behind the two instance locks and released together — a method that
+// holds the argument's lock while locking the receiver self-deadlocks in (1) and deadlocks on lock
+// order in (2), deterministically.
+func containerArgProbes(env *vh.Env, rep *vh.Report) {
+	for _, c := range ctors {
+		obj := c.mk()
+		t := reflect.TypeOf(obj)
+		for i := 0; i < t.NumMethod(); i++ {
+			m := t.Method(i)
+			argPos := -1
+			for j := 1; j < m.Type.NumIn(); j++ {
+				if m.Type.In(j) == t {
+					argPos = j - 1
+				}
+			}
+			if argPos < 0 {
+				continue
+			}
+			rep.Count("container-arg:methods")
+			// (1) receiver as its own argument
+			for _, n := range []int{0, 1, 3} {
+				a := c.mk()
+				insertN(a, 1, n)
+				meth := reflect.ValueOf(a).MethodByName(m.Name)
+				args, ok := buildArgs(a, meth.Type(), 1, c.mk)
+				if !ok {
+					continue
+				}
+				args[argPos] = reflect.ValueOf(a)
+				o := vh.GuardTimeout(2*time.Second, func() { meth.Call(args) })
+				rep.Case(fmt.Sprintf("container-arg self %s.%s n=%d", c.name, m.Name, n), true)
+				if o.Timeout {
+					rep.Fail("property", c.name+"."+m.Name+":deadlock",
+						fmt.Sprintf("%s.%s called with the receiver itself as argument (%d elements) did not return within 2 s", c.name, m.Name, n),
+						map[string]interface{}{"type": c.name, "method": m.Name, "how": fmt.Sprintf("m := New…(); insert %d elements; m.%s(m) under a 2 s watchdog", n, m.Name)})
+					break
+				}
+			}
+			// (2) opposite directions
+			reps := 3
+			if env.Thorough {
+				reps = 20
+			}
+			for r := 0; r < reps; r++ {
+				a, b := c.mk(), c.mk()
+				insertN(a, 1, 3)
+				insertN(b, 11, 3)
+				la, lb := instanceLock(a), instanceLock(b)
+				ma, mb := reflect.ValueOf(a).MethodByName(m.Name), reflect.ValueOf(b).MethodByName(m.Name)
+				argsA, ok1 := buildArgs(a, ma.Type(), 1, c.mk)
+				argsB, ok2 := buildArgs(b, mb.Type(), 1, c.mk)
+				if !ok1 || !ok2 || la == nil || lb == nil {
+					break
+				}
+				argsA[argPos], argsB[argPos] = reflect.ValueOf(b), reflect.ValueOf(a)
+				lockstep := r%2 == 0
+				if lockstep {
+					la.Lock()
+					lb.Lock()
+				}
+				var wg sync.WaitGroup
+				wg.Add(2)
+				go func() { defer wg.Done(); vh.Guard(func() { ma.Call(argsA) }) }()
+				if lockstep {
+					time.Sleep(2 * time.Millisecond)
+				}
+				go func() { defer wg.Done(); vh.Guard(func() { mb.Call(argsB) }) }()
+				if lockstep {
+					time.Sleep(3 * time.Millisecond)
+					lb.Unlock()
+					la.Unlock()
+				}
+				done := make(chan struct{})
+				go func() { wg.Wait(); close(done) }()
+				hung := false
+				select {
+				case <-done:
+				case <-time.After(2 * time.Second):
+					hung = true
+				}
+				rep.Case(fmt.Sprintf("container-arg opposite %s.%s lockstep=%v", c.name, m.Name, lockstep), true)
+				if hung {
+					rep.Fail("property", c.name+"."+m.Name+":deadlock",
+						fmt.Sprintf("a.%s(b) and b.%s(a) on two %s instances running concurrently did not finish within 2 s (lock order between the two instances)", m.Name, m.Name, c.name),
+						map[string]interface{}{"type": c.name, "method": m.Name, "lockstep": lockstep,
+							"how": "two instances with 3 elements each; (lock-step: hold both instance locks, start a.M(b) and b.M(a), release both) ; watchdog 2 s"})
+					break
+				}
+			}
+		}
+	}
+}
+
+// ---------------------------------------------------------------- writers under a read lock
+
+// enumerateKeys walks Keys() of a map/set with a bound on the number of steps.
+func enumerateKeys(obj interface{}, limit int) (keys []string, why string) {
+	km := reflect.ValueOf(obj).MethodByName("Keys")
+	if !km.IsValid() || km.Type().NumIn() != 0 {
+		return nil, "no-keys"
+	}
+	o := vh.GuardTimeout(3*time.Second, func() {
+		en := km.Call(nil)[0]
+		if en.Kind() == reflect.Interface {
+			en = en.Elem()
+		}
+		has := en.MethodByName("HasMoreElements")
+		var next reflect.Value
+		for _, n := range []string{"NextInt", "NextLong", "NextString", "NextElement"} {
+			if next = en.MethodByName(n); next.IsValid() {
+				break
+			}
+		}
+		if !has.IsValid() || !next.IsValid() {
+			why = "no-enumerator"
+			return
+		}
+		for i := 0; i < limit && has.Call(nil)[0].Bool(); i++ {
+			keys = append(keys, canon(next.Call(nil)))
+		}
+		if has.Call(nil)[0].Bool() {
+			why = "the key enumeration does not end"
+		}
+	})
+	if o.Timeout {
+		return keys, "the key enumeration does not return"
+	}
+	if o.Panic != "" {
+		return keys, "the key enumeration panics: " + vh.Clip(o.Panic, 80)
+	}
+	return keys, why
+}
+
+// readLockWriterStress: tie A says method M writes the structure while holding only a read lock.
+// Eight goroutines call exactly M on a small map with existing keys; afterwards the structure must
+// still be intact: no panic, the key enumeration lists every key exactly once, Size() agrees.
+func readLockWriterStress(env *vh.Env, rep *vh.Report, facts lockFacts) {
+	if facts == nil {
+		return
+	}
+	rounds := 30
+	if env.Thorough {
+		rounds = 300
+	}
+	for _, c := range ctors {
+		for _, m := range facts.readLockWriters(c.name) {
+			rep.Count("read-lock-writer:methods")
+			failed := false
+			for r := 0; r < rounds && !failed; r++ {
+				obj := c.mk()
+				const n = 5
+				insertN(obj, 1, n)
+				want, _ := enumerateKeys(obj, 50)
+				meth := reflect.ValueOf(obj).MethodByName(m)
+				var calls [][]reflect.Value
+				for k := 1; k <= n; k++ {
+					if a, ok := buildArgs(obj, meth.Type(), k, c.mk); ok {
+						calls = append(calls, a)
+					}
+				}
+				if len(calls) == 0 {
+					break
+				}
+				var panics int32
+				var wg sync.WaitGroup
+				for g := 0; g < 8; g++ {
+					wg.Add(1)
+					go func(g int) {
+						defer wg.Done()
+						for i := 0; i < 400; i++ {
+							if o := vh.Guard(func() { meth.Call(calls[(i*7+g)%len(calls)]) }); !o.OK() {
+								atomic.AddInt32(&panics, 1)
+								return
+							}
+						}
+					}(g)
+				}
+				fin := make(chan struct{})
+				go func() { wg.Wait(); close(fin) }()
+				why := ""
+				select {
+				case <-fin:
+				case <-time.After(5 * time.Second):
+					why = "the eight goroutines did not finish within 5 s"
+				}
+				if why == "" && atomic.LoadInt32(&panics) > 0 {
+					why = fmt.Sprintf("%d goroutines panicked inside %s", panics, m)
+				}
+				if why == "" {
+					got, w := enumerateKeys(obj, 50)
+					sort.Strings(got)
+					ws := append([]string(nil), want...)
+					sort.Strings(ws)
+					size := "?"
+					vh.GuardTimeout(time.Second, func() { size = canon(reflect.ValueOf(obj).MethodByName("Size").Call(nil)) })
+					switch {
+					case w != "":
+						why = w
+					case strings.Join(got, ",") != strings.Join(ws, ","):
+						why = fmt.Sprintf("the order list enumerates %v, the map holds %v", got, ws)
+					case size != fmt.Sprint(n):
+						why = "Size() = " + size
+					}
+				}
+				rep.Case(fmt.Sprintf("read-lock-writer %s.%s", c.name, m), true)
+				if why != "" {
+					failed = true
+					rep.Fail("property", c.name+"."+m+":corrupts-under-concurrency",
+						fmt.Sprintf("%s.%s writes the structure under a read lock (tie A); 8 goroutines calling only %s on a map of %d keys: %s", c.name, m, m, n, why),
+						map[string]interface{}{"type": c.name, "method": m,
+							"how": fmt.Sprintf("insert keys 1..%d; 8 goroutines × 400 calls of %s(existing key); then enumerate Keys() and compare with the keys inserted, check Size()", n, m)})
+				}
+			}
+		}
+	}
+}
